@@ -309,6 +309,14 @@ func runKeep(code *gojq.Code, input, v any, limit int) (vals []any, errText stri
 				rec.Excluded("C05/error-references-updated-container")
 				break
 			}
+			if !replaying && loopLike.MatchString(queryText) {
+				// what runs after the first error is not covered by the model's
+				// resource guards: only loop-free, non-amplifying programs are
+				// advanced further
+				rec.Class("after-error/not-advanced")
+				break
+			}
+			rec.Class("after-error/advanced")
 			for k := 0; k < 6; k++ {
 				y, ok := it.Next()
 				if !ok {
@@ -355,6 +363,7 @@ func runKeep(code *gojq.Code, input, v any, limit int) (vals []any, errText stri
 var (
 	knownErrRef, replaying bool
 	queryText              string // the program of the case being judged (for structural classes)
+	loopLike               = regexp.MustCompile(`recurse|repeat|while|until|range|def |reduce|foreach|limit\(|tojson|tostring|@|\*|implode|join|add|ascii|splits|sub\(|walk|combinations|input|getpath|paths|env|builtins|\.\.`)
 	updateLike             = regexp.MustCompile(`\|=|[-+*/%]=|//=|map_values|walk\(|_modify|with_entries|to_entries`)
 )
 
